@@ -241,7 +241,7 @@ def _core2():
     axiom(T, "has-len", FA([s, x], z3.Implies(has(s, x), len_(s) >= 1), [has(s, x)]))
     t_ = const("t_")
     axiom(T, "set-union-has", FA([s, t_, x], has(set_union(s, t_), x) == z3.Or(has(s, x), has(t_, x)), [has(set_union(s, t_), x)]))
-    axiom(T, "set-diff-has", FA([s, t_, x], has(set_diff(s, t_), x) == z3.And(has(s, x), z3.Not(has(t_, x))), [has(set_diff(s, t_), x)]))
+    axiom(T, "set-diff-has", FA([s, t_, x], has(set_diff(s, t_), x) == z3.And(has(s, x), z3.Not(has(t_, x))), [has(set_diff(s, t_), x), (set_diff(s, t_), has(s, x))]))
     axiom(T, "set-diff-not-none", FA([s, t_], set_diff(s, t_) != NONE, [set_diff(s, t_)]))
     axiom(T, "set-union-not-none", FA([s, t_], set_union(s, t_) != NONE, [set_union(s, t_)]))
     v = const("v")
